@@ -779,8 +779,50 @@ Proof.
   assert (0 < 2 ^ s_width s) as Hpos by (apply Z.pow_pos_nonneg; lia).
   assert (In (2 ^ s_width s - 1) (numbers (s_variants s))) as Hn by (apply Ec'; lia).
   rewrite <- numbers_emit, <- Hvs in Hn. apply in_map_iff in Hn. destruct Hn as (v & Hv & Hinv).
-  specialize (Hlit eq_refl Efull ee v Hres Hinv).
+  specialize (Hlit eq_refl Efull ee v eq_refl Hinv).
   pose proof (carrier_bits_ge8 (field_width f)) as H8. rewrite <- Efull in H8.
   assert (2 ^ (field_width f - 1) < 2 ^ field_width f) as Hlt by (apply Z.pow_lt_mono_r; lia).
   lia.
+Qed.
+
+(* C07_error_payload: an error is produced only by enums with neither fallback, for unlisted numbers, and it
+   carries exactly the raw value and the enum's name *)
+Theorem from_num_err_payload : forall e raw s t,
+  from_num e raw = CErr s t ->
+  s = raw /\ t = ee_name e /\ ~ listed e raw /\
+  (forall v, In v (ee_variants e) -> ev_catch_all v = false /\ ev_default v = false).
+Proof.
+  intros e raw s t. unfold from_num.
+  destruct (find (arm_matches raw) (ee_variants e)) as [v|] eqn:Ef; [discriminate|].
+  destruct (find ev_catch_all (ee_variants e)) as [c|] eqn:Ec; [discriminate|].
+  destruct (find ev_default (ee_variants e)) as [d|] eqn:Ed; [discriminate|].
+  intros H. inversion H; subst. repeat split.
+  - intros Hl. apply listed_find in Hl. destruct Hl as [v Hv]. congruence.
+  - apply (find_none _ _ Ec). assumption.
+  - apply (find_none _ _ Ed). assumption.
+Qed.
+
+(* device level: accepted iff every enum site is accepted; a rejection is the verdict of some site *)
+Theorem device_accept_iff : forall d,
+  enum_values_check d = VOk <->
+  Forall (fun s => enum_check (s_obj s) (f_name (s_field s)) (s_width s) (s_enum s) (s_try s) = VOk) (enum_sites d).
+Proof. intros d. unfold enum_values_check, enum_values_check_with. apply first_verdict_ok. Qed.
+
+Lemma first_verdict_in {A} (f : A -> verdict) : forall l v,
+  first_verdict (map f l) = v -> v <> VOk -> exists x, In x l /\ f x = v.
+Proof.
+  induction l as [|a t IH]; intros v H Hne; cbn [map first_verdict] in H; [congruence|].
+  destruct (f a) eqn:E.
+  - destruct (IH v H Hne) as (x & Hin & Hx). exists x. split; [right|]; assumption.
+  - exists a. split; [left; reflexivity|congruence].
+  - exists a. split; [left; reflexivity|congruence].
+Qed.
+
+Theorem device_reject_site : forall d e,
+  enum_values_check d = VErr e ->
+  exists s, In s (enum_sites d) /\
+            enum_check (s_obj s) (f_name (s_field s)) (s_width s) (s_enum s) (s_try s) = VErr e.
+Proof.
+  intros d e H. unfold enum_values_check, enum_values_check_with in H.
+  apply first_verdict_in in H; [|discriminate]. exact H.
 Qed.
